@@ -39,6 +39,9 @@ const c04PairsPerHierCase = 10
 // c04MatrixPerHierCase: scalar kind pairs applied alone per hierarchy case (32 quick cases × 7 ≥ the 210 ordered pairs)
 const c04MatrixPerHierCase = 7
 
+// c04SingleStride: every c04SingleStride-th operator of the catalogue (rotating with the case number) is applied alone.
+const c04SingleStride = 24
+
 var c04AllCfgs = func() []c03Cfg {
 	var out []c03Cfg
 	for _, v := range c03Versions {
@@ -260,8 +263,10 @@ func c04Hierarchy(c *core.C, idx int) {
 	// or the number reserved is clean under some categories and dirty under others): each of them is
 	// also applied alone, so that no other edit of the pair masks a hole in the implication chain
 	var singles []*c03Op
-	for _, op := range c03Catalogue {
-		if strings.Contains(op.Name, "reserved") {
+	for oi, op := range c03Catalogue {
+		// and every other operator alone in turn (about six per case, all of them over a quick run): the rules that
+		// make the categories differ are spread over the whole catalogue (type rules by kind, e.g. a delimited field)
+		if strings.Contains(op.Name, "reserved") || strings.HasPrefix(op.Name, "field-type-message") || (oi+idx)%c04SingleStride == 0 {
 			singles = append(singles, op)
 		}
 	}
@@ -313,6 +318,21 @@ func c04Hierarchy(c *core.C, idx int) {
 			op := singles[p-c04PairsPerHierCase]
 			env.New = c03Index(ns)
 			if sites := op.Sites(env.New); len(sites) > 0 {
+				// message-typed fields with delimited (group-like) encoding are a kind of their own in the type rules
+				var delimited []c03Site
+				for _, st := range sites {
+					if m := env.New.Msg(st.A); m != nil {
+						if fl := m.Field(st.B); fl != nil {
+							if _, ok := hasOpt(fl.Options, "features.message_encoding"); ok {
+								delimited = append(delimited, st)
+							}
+						}
+					}
+				}
+				if len(delimited) > 0 && c.Rand.IntN(2) == 0 {
+					sites = delimited
+					c.Count("hierarchy_single_ops_on_delimited_fields", 1)
+				}
 				snapshot := ns.Clone()
 				if exp := op.Apply(env, sites[c.Rand.IntN(len(sites))]); len(exp) == 0 {
 					ns = snapshot
